@@ -1,27 +1,158 @@
-import AndaVerif.Proofs.CollRel
+import AndaVerif.Proofs.CollFacts
 /-
-C02 — Every index answers exactly from the stored documents (first instalment: the posting
-relation of one B-tree index under the wrapper's `update`, for every relation, id and value pair).
+C02 — Every index answers exactly from the stored documents.
+
+All theorems are about the model `AndaVerif.Model.Collection` of `Collection`'s
+add / update / remove / index-creation (backfill) / index-removal / flush / reopen paths with their
+rejections and rollbacks, and hold after **every** operation history (`run (init schema) ops`, any
+`ops : List Op`, accepted and rejected operations mixed), i.e. at every quiescent point.
+`Agrees s` says, in both directions (no hole, no phantom), that each B-tree posting relation, each
+BM25 term relation and document set, each HNSW id set, and the id set are the ones recomputed from
+the stored documents. After a crash, recovery (C01 `recovery_converges`) hands over a state with
+`Inv`; `index_refines_docs_from` continues from any such state.
 -/
 namespace AndaVerif.Collection
 
-/-- A successful `BTree::update(id, old, new)` on a relation that holds exactly `old`'s keys for
-`id` leaves `id` with exactly `new`'s keys and every other document's postings untouched. -/
-theorem update_posting_exact (u : Bool) (r r' : List (Key × Nat)) (id : Nat) (o n : IVal)
-    (hold : ∀ k, (k, id) ∈ r ↔ k ∈ o.keys) (hc : Compat o n) (h : btUpdate u r id o n = .ok r') :
-    (∀ k, (k, id) ∈ r' ↔ k ∈ n.keys) ∧ (∀ k i, i ≠ id → ((k, i) ∈ r' ↔ (k, i) ∈ r)) :=
-  let h := btUpdate_ok u r r' id o n hold hc h
-  ⟨h.1, h.2.1⟩
+/-- For every operation history, at every quiescent point, every index is exactly the one
+recomputed from the stored documents and the id set is the set of fetchable documents. -/
+theorem index_refines_docs (schema : List (Nat × FieldDef)) (ops : List Op) :
+    Agrees (run (init schema) ops) :=
+  inv_agrees _ (inv_run _ ops (inv_init schema))
 
-/-- `BTree::update` is refused only by a unique index and only because another document owns one
-of the new keys. -/
-theorem update_refused_only_on_conflict (u : Bool) (r : List (Key × Nat)) (id : Nat) (o n : IVal) (e : Err)
-    (hc : Compat o n) (h : btUpdate u r id o n = .error e) :
-    e = .exists ∧ u = true ∧ ∃ k ∈ n.keys, ∃ j, (k, j) ∈ r ∧ j ≠ id := by
-  obtain ⟨he, hu, k, hk, hcf⟩ := btUpdate_err u r id o n e hc h
-  exact ⟨he, hu, k, hk, (conflict_iff r id k).1 hcf⟩
+/-- The same from any state that satisfies the invariant — in particular from the state recovery
+produces after a crash (hypothesis supplied by C01). -/
+theorem index_refines_docs_from (s : State) (h : Inv s) (ops : List Op) : Agrees (run s ops) :=
+  inv_agrees _ (inv_run s ops h)
 
-example : btUpdate true [(.s 1, 7), (.s 2, 8)] 7 (.one (.s 1)) (.one (.s 3)) = .ok [(.s 2, 8), (.s 3, 7)] := by rfl
-example : btUpdate true [(.s 1, 7), (.s 2, 8)] 7 (.one (.s 1)) (.one (.s 2)) = .error .exists := by rfl
+/-- Exact filter: `Eq k` over an indexed field returns precisely the live documents whose stored
+value has the key `k`. -/
+theorem eq_filter_exact (schema : List (Nat × FieldDef)) (ops : List Op) (x : BtDef × List (Key × Nat))
+    (hx : x ∈ (run (init schema) ops).ix.bt) (k : Key) (i : Nat) :
+    i ∈ btQuery x.2 (fun k' => k' == k) ↔
+      i ∈ (run (init schema) ops).ids ∧ ∃ d, lookupD (run (init schema) ops).docs i = some d ∧ k ∈ (valueOf x.1 d).keys := by
+  have ha := index_refines_docs schema ops
+  rw [mem_btQuery]
+  constructor
+  · rintro ⟨k', hm, hq⟩
+    have : k' = k := by simpa using hq
+    subst this
+    obtain ⟨d, h1, h2⟩ := (ha.bt x hx k' i).1 hm
+    exact ⟨(ha.ids i).2 ⟨d, h1⟩, d, h1, h2⟩
+  · rintro ⟨_, d, h1, h2⟩
+    exact ⟨k, (ha.bt x hx k i).2 ⟨d, h1, h2⟩, by simp⟩
+
+/-- Range filter (any predicate on keys, hence any `RangeQuery` tree): precisely the live documents
+with a stored key that satisfies it. -/
+theorem range_filter_exact (schema : List (Nat × FieldDef)) (ops : List Op) (x : BtDef × List (Key × Nat))
+    (hx : x ∈ (run (init schema) ops).ix.bt) (q : Key → Bool) (i : Nat) :
+    i ∈ btQuery x.2 q ↔
+      i ∈ (run (init schema) ops).ids ∧
+        ∃ d, lookupD (run (init schema) ops).docs i = some d ∧ ∃ k ∈ (valueOf x.1 d).keys, q k = true := by
+  have ha := index_refines_docs schema ops
+  rw [mem_btQuery]
+  constructor
+  · rintro ⟨k, hm, hq⟩
+    obtain ⟨d, h1, h2⟩ := (ha.bt x hx k i).1 hm
+    exact ⟨(ha.ids i).2 ⟨d, h1⟩, d, h1, k, h2, hq⟩
+  · rintro ⟨_, d, h1, k, h2, hq⟩
+    exact ⟨k, (ha.bt x hx k i).2 ⟨d, h1, h2⟩, hq⟩
+
+/-- Term query: precisely the live documents whose indexed text contains the term. -/
+theorem term_query_exact (schema : List (Nat × FieldDef)) (ops : List Op) (t : Tx)
+    (ht : t ∈ (run (init schema) ops).ix.tx) (w i : Nat) :
+    i ∈ txQuery t w ↔
+      i ∈ (run (init schema) ops).ids ∧
+        ∃ d ws, lookupD (run (init schema) ops).docs i = some d ∧ textOf t.fields d = some ws ∧ w ∈ ws := by
+  have ha := index_refines_docs schema ops
+  rw [mem_txQuery, ha.tx t ht w i]
+  constructor
+  · rintro ⟨d, ws, h1, h2, h3⟩
+    exact ⟨(ha.ids i).2 ⟨d, h1⟩, d, ws, h1, h2, h3⟩
+  · rintro ⟨_, h⟩
+    exact h
+
+/-- The vector index holds exactly one entry per live document that carries a vector, and nothing
+else (so a search, which only returns entries, returns only such documents). -/
+theorem vector_one_entry_per_doc (schema : List (Nat × FieldDef)) (ops : List Op) (h : Hn)
+    (hh : h ∈ (run (init schema) ops).ix.hn) :
+    h.ids.Nodup ∧
+    (∀ i, i ∈ h.ids ↔ i ∈ (run (init schema) ops).ids ∧
+      ∃ d n, lookupD (run (init schema) ops).docs i = some d ∧ vecOf h.field d = some n) ∧
+    h.ids.length = ((run (init schema) ops).ids.filter
+      (fun i => (oVecOf h.field (lookupD (run (init schema) ops).docs i)).isSome)).length := by
+  have hi := inv_run _ ops (inv_init schema)
+  have ha := inv_agrees _ hi
+  have hg := hi.hn h hh
+  refine ⟨hg.2.1, fun i => ?_, ?_⟩
+  · rw [ha.hn h hh i]
+    constructor
+    · rintro ⟨d, n, h1, h2⟩
+      exact ⟨(ha.ids i).2 ⟨d, h1⟩, d, n, h1, h2⟩
+    · rintro ⟨_, h⟩
+      exact h
+  · refine same_length_of_nodup hg.2.1 (hi.ids_nodup.filter _) (fun i => ?_)
+    rw [hg.1 i, List.mem_filter, hi.ids_docs i]
+    constructor
+    · intro h1
+      refine ⟨?_, h1⟩
+      cases hl : lookupD (run (init schema) ops).docs i with
+      | none => rw [hl] at h1; simp [oVecOf] at h1
+      | some d => rfl
+    · exact fun h1 => h1.2
+
+/-- The id set is the set of fetchable documents, without duplicates — so `len()` (its length)
+counts exactly the fetchable documents; every BM25 index counts exactly the live documents with a
+non-empty text. -/
+theorem counts_agree (schema : List (Nat × FieldDef)) (ops : List Op) :
+    (run (init schema) ops).ids.Nodup ∧
+    (∀ i, i ∈ (run (init schema) ops).ids ↔ ∃ d, lookupD (run (init schema) ops).docs i = some d) ∧
+    (∀ t ∈ (run (init schema) ops).ix.tx, t.docs.Nodup ∧
+      t.docs.length = ((run (init schema) ops).ids.filter
+        (fun i => !(toks (oTextOf t.fields (lookupD (run (init schema) ops).docs i))).isEmpty)).length) := by
+  have hi := inv_run _ ops (inv_init schema)
+  refine ⟨hi.ids_nodup, (inv_agrees _ hi).ids, fun t ht => ⟨(hi.tx t ht).2.2, ?_⟩⟩
+  refine same_length_of_nodup (hi.tx t ht).2.2 (hi.ids_nodup.filter _) (fun i => ?_)
+  rw [(hi.tx t ht).1 i, List.mem_filter, hi.ids_docs i]
+  constructor
+  · intro h1
+    refine ⟨?_, by simpa [List.isEmpty_iff] using h1⟩
+    cases hl : lookupD (run (init schema) ops).docs i with
+    | none => rw [hl] at h1; simp [oTextOf, toks] at h1
+    | some d => rfl
+  · intro h1
+    simpa [List.isEmpty_iff] using h1.2
+
+/-- Rollbacks never poison the handle in the absence of storage faults: restoring the previous
+index values can not be refused. -/
+theorem never_poisoned (schema : List (Nat × FieldDef)) (ops : List Op) :
+    (run (init schema) ops).poisoned = false :=
+  (inv_run _ ops (inv_init schema)).healthy
+
+-- ------------------------------------------------------------------------------------------
+-- Non-vacuity: a concrete history with a rejected add (unique conflict on the 2nd index after the
+-- 1st was already changed), a rejected update, an accepted update, a removal and a backfill.
+-- ------------------------------------------------------------------------------------------
+
+def exSchema : List (Nat × FieldDef) :=
+  [(1, { kind := .int, opt := false, unique := true }), (2, { kind := .arr, opt := false, unique := true }),
+   (3, { kind := .text, opt := false, unique := false }), (4, { kind := .vec, opt := false, unique := false })]
+
+def exOps : List Op :=
+  [.createBt 0 [1], .createBt 1 [2], .createTx [3], .createHn 4 2,
+   .add [(1, .int 5), (2, .arr [1, 2]), (3, .text [0, 1]), (4, .vec 2)],
+   .add [(1, .int 6), (2, .arr [2, 3]), (3, .text [1]), (4, .vec 2)],      -- rejected: key 2 of the array index is taken
+   .add [(1, .int 6), (2, .arr [3]), (3, .text [1]), (4, .vec 3)],         -- rejected in the third family (dimension)
+   .add [(1, .int 6), (2, .arr [3]), (3, .text [1]), (4, .vec 2)],
+   .update 1 [(1, .int 6)],                                                -- rejected: 6 is owned by id 4
+   .update 1 [(2, .arr [2, 7])],
+   .remove 4,
+   .createBt 2 [1, 2]]
+
+example : (run (init exSchema) exOps).ids = [1] := by rfl
+example : (run (init exSchema) exOps).ix.bt.map (fun x => (x.1.name, x.2)) =
+    [(2, [(.t [.int 5, .arr [2, 7]], 1)]), (1, [(.s 2, 1), (.s 7, 1)]), (0, [(.s 5, 1)])] := by rfl
+example : (run (init exSchema) exOps).ix.tx.map (fun t => (t.docs, t.post)) = [([1], [(0, 1), (1, 1)])] := by rfl
+example : (run (init exSchema) exOps).ix.hn.map (fun h => h.ids) = [[1]] := by rfl
+example : btQuery [(.s 2, 1), (.s 7, 1), (.s 3, 4)] (fun k => k == .s 7) = [1] := by rfl
 
 end AndaVerif.Collection
